@@ -30,6 +30,7 @@
  * head / while a read-side section open at call_rcu() entry is still open; rcu_barrier() returning before a callback
  * whose call_rcu() had returned when it was called has finished; accesses to freed call_rcu_data / completion / work
  * objects (the library's malloc/calloc/free are interposed: freed objects are quarantined, never reused); double free.
+ * call_rcu() returning with the caller's read-side nesting count changed.
  * C19: the handler touching a reclaimed object (flag + quarantine); at handler exit the interrupted thread's reader state --
  * nesting count, rcu_read_ongoing(), inside a section the whole reader word (phase) -- differs from the state at handler entry.
  * Both states are logged (events sigst) and compared with the specification's by the trace validation.
@@ -387,7 +388,10 @@ static NS void do_call_rcu(int k, void (*fn)(struct rcu_head *))
 	for (int i = 0; i < D_MAXT; i++) snap[k][i] = d_cs[i];
 	vrt_log("\"op\":\"call\",\"var\":\"n%d\",\"a\":\"call\"", k);
 	gate_done(g);
+	unsigned long n0 = d_reader_word() & D_NEST_MASK, n1;
 	call_rcu(&objs[k].head, fn);
+	if ((n1 = d_reader_word() & D_NEST_MASK) != n0)
+		vrt_fail("ORACLE call_rcu() changed the caller's read-side nesting count (%lu -> %lu)", n0, n1);
 	g = gate("ret", nm);
 	queued[k] = 1;
 	vrt_log("\"op\":\"ret\",\"r\":\"-\"");
@@ -507,6 +511,9 @@ int main(int argc, char **argv)
 	gptr = &gobjs[0];
 	vrt_name(&gptr, VK_PTR, "gptr");
 	if (nsig) vrt_set_sighandler(sig_handler);
+	/* CR_WATCH_PLAIN=2 (C19, thorough tier): every compiler-instrumented plain access of the library code inside an operation is a scheduling
+	 * point too, i.e. one more place where the handler can be delivered (the accesses themselves are not part of the specification: projected away) */
+	if (getenv("CR_WATCH_PLAIN")) vrt_watch_plain(atoi(getenv("CR_WATCH_PLAIN")));
 	vrt_name(&default_call_rcu_data, VK_PTR, "dflt");
 	vrt_name(&per_cpu_call_rcu_data, VK_PTR, "pcpu");
 	vrt_name_mutex(&call_rcu_mutex, "call_rcu_mutex");
